@@ -14,6 +14,16 @@ Theorems: coq/theories/Props/C05.v
 Tie: tools/harness/c05_driver.py runs the real collocate_filesets / Collocations.search end to end (pickle
 handler, 1-4 worker processes, logged result queue); the model and the specification are evaluated on the same
 case inside Coq; the spatial relation is decided by an independent long-double chord computation.
+Style "slow-consumer" (some runs of every tier + one directed case): output to memory, 2-4 processes, 5-7 primary
+files with partners in every one of them, and a caller that spends 0.2-0.4 s on each yielded dataset -- the workers
+fill the bounded result queue and exit while the parent is suspended at its `yield`, so whatever the parent's wait
+loop fails to drain after the last worker died is missing from the total (a failing input, not only a queue trace
+the model rejects).  Style "slow-poll": the same kind of data, but the parent is held up 0.1-0.2 s every time
+results.empty() has answered True and one worker is made to finish clearly last (reader delay on the last primary
+file): its last results become visible and it ends between the parent's last look into the queue and the snapshot that
+finds nobody alive -- exactly the state in which, by theorem drain_needed, a parent without the drain after the last
+worker died loses what is in the queue.  The total never depends on those pauses for the code as it is (theorems
+queue_exactly_once, queue_liveness, drain_needed).
 """
 import json
 import math
@@ -33,7 +43,8 @@ PROCESS_NAMES = ['Newton', 'Einstein', 'Bohr', 'Darwin', 'Pasteur', 'Freud', 'Ga
 
 TRUSTED = [
     "correspondence harness tools/props/c05.py + tools/harness/c05_driver.py (generators, pickle file handler, "
-    "logging subclasses of multiprocessing Queue/Process, canonical sorting of id pairs)",
+    "logging subclasses of multiprocessing Queue/Process, canonical sorting of id pairs; schedule perturbations: reader "
+    "delays, a caller that pauses after every yielded dataset, a parent held up after every results.empty() == True)",
     "independent spatial oracle: 3-D chord between geocentric points in numpy long double, radius typhon.constants.earth_radius",
     "Collocator.collocate (property C04) enters the theorems as a parameter with the hypothesis that it returns exactly the "
     "pairs meeting the criterion; BallTree, xarray selection, pickling are exercised, not modelled",
@@ -141,10 +152,10 @@ def _gen_case(rng, k, style):
     nsites = rng.randint(2, 6)
     sites = rng.sample([(i, j) for i in range(-6, 7) for j in range(-10, 11)], nsites)
 
-    def cut(which, nmax, cover):
+    def cut(which, nmax, cover, nmin=1):
         if cover:
             return [[base - rng.randint(0, unit), base + H + rng.randint(0, unit)]]
-        n = rng.randint(1, nmax)
+        n = rng.randint(nmin, nmax)
         cuts = sorted(rng.sample(range(1, H // 10), min(n - 1, H // 10 - 1))) if n > 1 else []
         edges = [0] + [x * 10 for x in cuts] + [H]
         files = []
@@ -163,8 +174,13 @@ def _gen_case(rng, k, style):
             j = rng.randrange(len(files) - 1)
             files[j][1] = min(files[j + 1][1] - 1, files[j][1] + rng.randint(1, unit))
         return files
-    cov_a = cut("A", 5, style == "cover" and rng.random() < 0.4)
-    cov_b = cut("B", 6, style == "cover")
+    slow = style in ("slow-consumer", "slow-poll")
+    if slow:                                     # many primary files (one small result each), few secondary files
+        cov_a = cut("A", 7, False, 5)
+        cov_b = cut("B", 2, False)
+    else:
+        cov_a = cut("A", 5, style == "cover" and rng.random() < 0.4)
+        cov_b = cut("B", 6, style == "cover")
     if style == "aligned":                       # both filesets cut at the same instants: partners across a cut
         cov_b = [list(f) for f in cov_a]         # are found only through the widening by max_interval
     ids = {"A": 0, "B": 1000}
@@ -190,15 +206,20 @@ def _gen_case(rng, k, style):
                 if p:
                     f["pts"].append(p)
     # seeded partners: a point of A gets partners in B close in time (also across file boundaries)
-    for _ in range(rng.randint(1, 4) if style != "dense" else rng.randint(3, 8)):
-        fa = rng.choice(files["A"])
+    if slow:                                     # every primary file has partners: every match gives a result
+        seeds = list(files["A"])
+    else:
+        seeds = [None] * (rng.randint(1, 4) if style != "dense" else rng.randint(3, 8))
+    for fa in seeds:
+        if fa is None:
+            fa = rng.choice(files["A"])
         site = rng.choice(sites)
         p = point("A", (fa["c0"], fa["c1"]), site)
         if not p:
             continue
         fa["pts"].append(p)
         for fb in files["B"]:
-            if rng.random() < 0.7:
+            if slow or rng.random() < 0.7:
                 dt = rng.randint(-mi * US + 1, mi * US - 1)
                 q = point("B", (fb["c0"], fb["c1"]), site, p[0] + dt)
                 if q:
@@ -243,6 +264,8 @@ def _gen_case(rng, k, style):
         if len(set(ts)) < len(ts):
             return None
     r = rng.random()
+    if slow:
+        r = 0.0                                  # the whole data: as many results as there are matches
     if r < 0.55:
         start, end = base - unit - mi, base + H + unit + mi
     elif r < 0.9:
@@ -269,6 +292,17 @@ def _gen_case(rng, k, style):
         for j in range(len(files[which])):
             if rng.random() < 0.3:
                 case["delays"][f"{which}:{j}"] = rng.choice([0.005, 0.02, 0.05])
+    if slow:
+        case.update({"processes": rng.randint(2, 4), "bundle": rng.choice([None, None, "primary"]), "output": "memory",
+                     "bad": None, "skip": False})
+    if style == "slow-consumer":
+        # the caller takes its time for every yielded dataset; several workers, results handed over one by one
+        case["consumer_sleep"] = rng.choice([0.2, 0.3, 0.4])
+    if style == "slow-poll":
+        # the parent pauses whenever it found the queue empty, and the worker with the last primary file finishes well
+        # after everything else has been taken out of the queue
+        case["poll_sleep"] = rng.choice([0.1, 0.15, 0.2])
+        case["delays"][f"A:{len(files['A']) - 1}"] = rng.choice([1.2, 1.4])
     return case
 
 
@@ -299,8 +333,25 @@ def directed_cases(rng, k0):
          {"c0": 600, "c1": 1199, "pts": [[602 * U, -70.0, 4.0, 1092], [603 * U + 7, 0.0, 2.0, 1002], [1100 * U, 10.0, 10.0, 1003]]}]
     out.append({"style": "partners-across-a-common-cut", "A": a, "B": b, "mi": 30, "md": 5.0, "start": -100, "end": 2000,
                 "processes": 2, "bundle": "primary", "output": "memory"})
+    # six primary files with one collocation each, three workers, a caller that needs 0.3 s per yielded dataset:
+    # the last results are put (and their workers gone) while the parent is suspended at its `yield`
+    a = [{"c0": 100 * k, "c1": 100 * k + 99,
+          "pts": [[(100 * k + 10) * U, 70.0, float(k), 90 + k], [(100 * k + 11) * U + 3, 0.0, float(k), 1 + k]]}
+         for k in range(6)]
+    b = [{"c0": 0, "c1": 599,
+          "pts": [p for k in range(6) for p in ([(100 * k + 12) * U, -70.0, float(k), 1090 + k],
+                                                [(100 * k + 13) * U + 1, 0.0, k + 0.01, 1001 + k])]}]
+    out.append({"style": "slow-consumer-directed", "A": a, "B": b, "mi": 30, "md": 5.0, "start": -100, "end": 2000,
+                "processes": 3, "bundle": None, "output": "memory", "consumer_sleep": 0.3})
+    # the same data, a parent that pauses 0.15 s whenever it found the queue empty and a third worker whose last file
+    # takes 1.2 s to read: its last result arrives when everything else has been yielded, and it is gone itself before
+    # the parent asks who is alive
+    out.append({"style": "slow-poll-directed", "A": [dict(f) for f in a], "B": [dict(f) for f in b], "mi": 30,
+                "md": 5.0, "start": -100, "end": 2000, "processes": 3, "bundle": None, "output": "memory",
+                "poll_sleep": 0.15, "delays": {"A:5": 1.2}})
     for i, c in enumerate(out):
-        c.update({"id": k0 + i, "bad": None, "skip": False, "np_seed": 1, "delays": {}})
+        c.update({"id": k0 + i, "bad": None, "skip": False, "np_seed": 1})
+        c.setdefault("delays", {})
         near = near_pairs(c)
         c["near"] = [list(x) for x in near]
     return out
@@ -467,7 +518,9 @@ def evaluate(ctx, cases, obs):
         kind = "failing-input" if hyp else "correspondence"
         what = (f"[{c['style']}; processes={c['processes']} bundle={c['bundle']} output={c['output']} "
                 f"mi={c['mi']}s md={c['md']}km period={c['start']}..{c['end']}"
-                + (f" unreadable={c['bad']}" if c.get("bad") else "") + "]")
+                + (f" unreadable={c['bad']}" if c.get("bad") else "")
+                + (f" caller sleeps {c['consumer_sleep']}s per yielded dataset" if c.get("consumer_sleep") else "")
+                + (f" parent held up {c['poll_sleep']}s after every empty()==True" if c.get("poll_sleep") else "") + "]")
         err = o.get("error")
         sets = [s for s in o.get("sets", []) if "pairs" in s]
         crashed = [s for s in o.get("sets", []) if "crashed" in s] or \
@@ -544,8 +597,12 @@ def evaluate(ctx, cases, obs):
                 ctx.fail(kind, f"collocations reported more than once: {extra[:5]} {what}", case=cs, impl=impl,
                          model=expected, signature="duplicated-collocations")
             elif lost and not extra:
+                # a run whose caller pauses after every yielded dataset is its own class: the loss is reproducible
+                # (it does not hang on two workers finishing within one pass of the parent)
                 ctx.fail(kind, f"{len(lost)} of {len(expected)} collocations are missing: {lost[:5]} {what}", case=cs,
-                         impl=impl, model=expected, signature="lost-collocations")
+                         impl=impl, model=expected,
+                         signature=("lost-collocations-slow-consumer" if c.get("consumer_sleep") else
+                                    "lost-collocations-slow-poll" if c.get("poll_sleep") else "lost-collocations"))
             else:
                 ctx.fail(kind, f"wrong collocations: missing {lost[:4]}, unexpected {extra[:4]} {what}", case=cs,
                          impl=impl, model=expected, signature="wrong-collocations")
@@ -605,7 +662,9 @@ def run(ctx):
     ctx.prove("Props/C05.v")
     n = ctx.n(20, 300)
     cases = [gen_case(ctx.rng, k) for k in range(n)]
-    cases += directed_cases(ctx.rng, n)
+    nslow = ctx.n(4, 16)
+    cases += [gen_case(ctx.rng, n + k, "slow-consumer" if k % 2 == 0 else "slow-poll") for k in range(nslow)]
+    cases += directed_cases(ctx.rng, n + nslow)
     ctx.log(f"{len(cases)} end-to-end configurations")
     obs = run_impl(ctx, cases, jobs=ctx.n(6, 8), batch=ctx.n(4, 10))
     ctx.log("implementation runs done: %.1f s of child wall time" % sum(o.get("wall", 0) for o in obs))
@@ -623,7 +682,9 @@ def run(ctx):
         return d
     ctx.cov["input_distribution"] = {"cases": len(cases), "styles": count("style"), "processes": count("processes"),
                                      "bundle": count("bundle"), "output": count("output"),
-                                     "default_period": sum(1 for c in cases if c["start"] is None), **stats}
+                                     "default_period": sum(1 for c in cases if c["start"] is None),
+                                     "slow_consumer": sum(1 for c in cases if c.get("consumer_sleep")),
+                                     "slow_poll": sum(1 for c in cases if c.get("poll_sleep")), **stats}
     ctx.assumptions += [
         "every point is stored in exactly one file whose coverage contains its time; max_interval is a whole number of "
         "seconds (hypotheses of the theorems, checked per case inside Coq)",
